@@ -20,6 +20,8 @@ use qbice::{
 use rand::{Rng, SeedableRng, rngs::StdRng};
 use serde::{Deserialize, Serialize};
 
+/// value an `In` node shows when it was never set (crash recovery probes)
+pub const ABSENT: i64 = -100;
 pub const SCC_NM: i64 = 7;
 pub const SCC_FW: i64 = 8;
 pub const SCC_PJ: i64 = 9;
@@ -196,6 +198,11 @@ pub enum Event {
     Restart,
     #[serde(rename = "crash")]
     Crash { cut: usize, of: usize },
+    /// input values shown by an engine reopened after a crash (-100 = absent)
+    #[serde(rename = "recovered")]
+    Recovered { inputs: Vec<(usize, i64)> },
+    #[serde(rename = "crash_panic")]
+    CrashPanic { cut: usize, msg: String },
     #[serde(rename = "cancel")]
     Cancel { n: usize, polls: usize },
     #[serde(rename = "reset")]
@@ -405,13 +412,13 @@ dsl_executor!(ExExec, Ex, ExecutionStyle::ExternalInput, 0);
 
 /// `In` nodes are set through input sessions; an executor is still registered
 /// so that a query for a never-set input has defined behaviour in the harness
-/// (it returns 0 as a Normal query with no reads). Programs used for verdicts
+/// (it returns ABSENT as a Normal query with no reads). Programs used for verdicts
 /// always set every input in the first session.
 #[derive(Debug, Clone)]
 pub struct InExec(pub Arc<Ctx>);
 
 impl<C: Config> Executor<In, C> for InExec {
-    async fn execute(&self, _query: &In, _engine: &TrackedEngine<C>) -> i64 { 0 }
+    async fn execute(&self, _query: &In, _engine: &TrackedEngine<C>) -> i64 { ABSENT }
 }
 
 // ---------------------------------------------------------------------------
@@ -426,11 +433,13 @@ pub struct GenCfg {
     pub externals: bool,
     pub cyclic: bool,
     pub groups: bool,
+    /// allow firewall / projection nodes
+    pub fw: bool,
 }
 
 impl Default for GenCfg {
     fn default() -> Self {
-        Self { n_min: 6, n_max: 14, m: 3, externals: true, cyclic: false, groups: true }
+        Self { n_min: 6, n_max: 14, m: 3, externals: true, cyclic: false, groups: true, fw: true }
     }
 }
 
@@ -448,7 +457,7 @@ pub fn gen_program(seed: u64, g: GenCfg) -> Program {
         } else {
             // projections need at least one firewall/projection below them
             let has_fw = nodes.iter().any(|x| matches!(x.kind, Kind::Fw | Kind::Pj));
-            match r.gen_range(0..10) {
+            match if g.fw { r.gen_range(0..10) } else { 0 } {
                 0..=4 => Kind::Nm,
                 5..=7 => Kind::Fw,
                 _ => {
